@@ -76,7 +76,12 @@ Proof.
 Qed.
 
 Lemma ex_write_ok : exists s, write ex_rows ex_c = OK s.
-Proof. eexists. vm_compute. reflexivity. Qed.
+Proof. exists (unwrap [] (write ex_rows ex_c)). vm_compute. reflexivity. Qed.
+
+Definition dc : circuit := cinit 0 false.
+Definition wc (x : res circuit) : circuit := unwrap dc x.
+Definition ws (c : circuit) : list stmt := unwrap [] (write ex_rows c).
+Definition rc (s : list stmt) : circuit := unwrap dc (read ex_rows ex_bases ex_specials ex_rotation s).
 
 (* --- refutation witnesses (the real code has the same defects, see known_findings.d/C13.json) --- *)
 Definition ex_collapse_circuit : res circuit :=
@@ -88,7 +93,7 @@ Lemma ex_collapse_dropped : exists c s c',
   ex_collapse_circuit = OK c /\ write ex_rows c = OK s
   /\ read ex_rows ex_bases ex_specials ex_rotation s = OK c'
   /\ length (filter is_M (cqueue c)) = 1%nat /\ length (filter is_M (cqueue c')) = 0%nat.
-Proof. do 3 eexists. wit. Qed.
+Proof. exists (wc ex_collapse_circuit), (ws (wc ex_collapse_circuit)), (rc (ws (wc ex_collapse_circuit))). wit. Qed.
 
 Definition ex_implicit_collapse_circuit : res circuit :=
   g1 <- construct ex_bases ex_M [VA (AInt 0)] [("register_name", VA (AStr "a"))];
@@ -99,7 +104,7 @@ Lemma ex_implicit_collapse_dropped : exists c s c',
   ex_implicit_collapse_circuit = OK c /\ write ex_rows c = OK s
   /\ read ex_rows ex_bases ex_specials ex_rotation s = OK c'
   /\ length (filter is_M (cqueue c)) = 1%nat /\ length (filter is_M (cqueue c')) = 0%nat.
-Proof. do 3 eexists. wit. Qed.
+Proof. exists (wc ex_implicit_collapse_circuit), (ws (wc ex_implicit_collapse_circuit)), (rc (ws (wc ex_implicit_collapse_circuit))). wit. Qed.
 
 Definition ex_iswap_circuit : res circuit :=
   g1 <- construct ex_bases ex_iSWAP [VA (AInt 0); VA (AInt 1)] [];
@@ -108,7 +113,7 @@ Definition ex_iswap_circuit : res circuit :=
 Lemma ex_iswap_rejected : exists c s,
   ex_iswap_circuit = OK c /\ write ex_rows c = OK s
   /\ read ex_rows ex_bases ex_specials ex_rotation s = Err EValueError.
-Proof. do 2 eexists. wit. Qed.
+Proof. exists (wc ex_iswap_circuit), (ws (wc ex_iswap_circuit)). wit. Qed.
 
 Definition ex_dupreg_circuit : res circuit :=
   g1 <- construct ex_bases ex_M [VA (AInt 2); VA (AInt 0)] [("register_name", VA (AStr "register1"))];
@@ -119,7 +124,7 @@ Lemma ex_dupreg_merged : exists c s c',
   ex_dupreg_circuit = OK c /\ write ex_rows c = OK s
   /\ read ex_rows ex_bases ex_specials ex_rotation s = OK c'
   /\ length (cmeas c) = 2%nat /\ length (cmeas c') = 1%nat.
-Proof. do 3 eexists. wit. Qed.
+Proof. exists (wc ex_dupreg_circuit), (ws (wc ex_dupreg_circuit)), (rc (ws (wc ex_dupreg_circuit))). wit. Qed.
 
 (* Circuit.raw / from_dict with a measurement in the X basis: the rotations are inserted twice *)
 Definition ex_basis_circuit : res circuit :=
@@ -130,11 +135,37 @@ Lemma ex_basis_duplicated : exists c c',
   ex_basis_circuit = OK c
   /\ cfrom_dict ex_rows ex_bases ex_rotation (craw ex_required c) = OK c'
   /\ length (cqueue c) = 3%nat /\ length (cqueue c') = 5%nat.
-Proof. do 2 eexists. wit. Qed.
+Proof.
+  exists (wc ex_basis_circuit), (unwrap dc (cfrom_dict ex_rows ex_bases ex_rotation (craw ex_required (wc ex_basis_circuit)))).
+  wit.
+Qed.
 
 (* Gate.raw drops Align's `delay` *)
 Lemma ex_align_delay_lost : exists g g',
   construct ex_bases ex_Align [VA (AInt 1); VA (AInt 3)] [] = OK g
   /\ from_dict ex_rows ex_bases (raw ex_required g) = OK g'
   /\ gparams g = [VA (AInt 3)] /\ gparams g' = [VA (AInt 0)].
-Proof. do 2 eexists. wit. Qed.
+Proof.
+  exists (unwrap dummy_gate (construct ex_bases ex_Align [VA (AInt 1); VA (AInt 3)] [])),
+         (unwrap dummy_gate (from_dict ex_rows ex_bases (raw ex_required (unwrap dummy_gate (construct ex_bases ex_Align [VA (AInt 1); VA (AInt 3)] []))))).
+  wit.
+Qed.
+
+(* non-vacuity of circuit_dict_roundtrip_partial: the example circuit's gates satisfy its hypothesis *)
+Definition gsame_b (g g' : gate) : bool :=
+  String.eqb (gcls g) (gcls g') && list_eqb Z.eqb (gtargets g) (gtargets g') && list_eqb Z.eqb (gcontrols g) (gcontrols g')
+  && list_eqb val_eqb (gparams g) (gparams g') && Bool.eqb (gcb g) (gcb g') && option_eqb String.eqb (greg g) (greg g')
+  && Bool.eqb (gcollapse g) (gcollapse g') && list_eqb String.eqb (gbasis g) (gbasis g').
+
+Definition ex_gs : list gate := map (unwrap dummy_gate) ex_gates.
+
+Lemma ex_dict_hyp :
+  build ex_rotation 3 false ex_gs = OK ex_c
+  /\ Forall (fun g => basis_gates ex_rotation g = []
+                      /\ exists g', from_dict ex_rows ex_bases (raw ex_required g) = OK g' /\ gsame g g') ex_gs.
+Proof.
+  split; [vm_compute; reflexivity|].
+  repeat constructor; try (vm_compute; reflexivity);
+    match goal with |- exists g', from_dict ?r ?b ?w = OK g' /\ _ =>
+      exists (unwrap dummy_gate (from_dict r b w)); split; [vm_compute; reflexivity | repeat split; vm_compute; reflexivity] end.
+Qed.
